@@ -25,6 +25,7 @@ func (rw *rewriter) run() {
 		rw.rewriteConc()
 	}
 	if rw.rules["maprange"] != "" { rw.rewriteMapRange() }
+	if rw.rules["maprangesel"] != "" { rw.rewriteMapRangeSel() }
 }
 
 func (rw *rewriter) rewriteNumCPU() {
